@@ -31,6 +31,11 @@ def polyKernel (d : Nat) : Kernel := fun x y => (linearKernel d x y + 1) * (line
 /-- element `a` of a batched dataset (batches are concatenated: `batchStart` offsets of the C++) -/
 def elemAt {α : Type} [Inhabited α] (bs : List (List α)) (a : Nat) : α := (bs.flatten)[a]?.getD default
 
+/-- the scale `NormalizeComponentsZCA::train` gives eigen-direction `k`: `1/sqrt(D_k)` if `D_k > 1e-15·D_0`, else 0
+(the direction is cleared) -/
+def zcaScale (sqrt : Rat → Rat) (D : Nat → Rat) (k : Nat) : Rat :=
+  if D k > (1 / 1000000000000000) * D 0 then 1 / sqrt (D k) else 0
+
 /-! ## NormalizeKernelUnitVariance -/
 
 /-- `sum(k(batch, batch'))` -/
